@@ -87,7 +87,7 @@ func init() {
 				n = 60
 			}
 			return fw.Meta{N: n, Level: "fault_enumeration", Chunk: 1, CaseTimeoutS: 1200, MinNT: 3, Workers: 3,
-				Rule:        "one case = one traced session with EnableAsyncWAL: cases 0 mod 3 log 90..130 incompressible values of 64..256 KiB (memstore 16 MiB) so that the 4 MiB WAL buffer wraps several times and buffer flushes cut records; the other cases are small-memstore sessions with many rotations (as in C02). Crash image after every mutating system call; a fresh process must Open it and the content must equal the reference map after SOME prefix p of the invoked operation sequence with L <= p, where L = number of operations acknowledged before the creation of the newest WAL file that precedes the image (= before the last memstore rotation). evaluations = distinct images recovered; non-trivial = session with >=50 images",
+				Rule:        "one case = one traced session with EnableAsyncWAL: cases 0 mod 3 log 90..130 incompressible values of 64..256 KiB (memstore 16 MiB) so that the 4 MiB WAL buffer wraps several times and buffer flushes cut records; the other cases are small-memstore sessions with many rotations (as in C02). Crash image after every mutating system call; a fresh process must Open it and the content must equal the reference map after SOME prefix p of the invoked operation sequence with L <= p, where L = number of operations acknowledged before the creation of the newest WAL file that precedes the image (= before the last memstore rotation). evaluations = distinct images recovered; non-trivial = session with >=50 images The last session of every second small run is driven by three concurrent clients with disjoint keys; images of that phase are judged per client (state at the begin of the phase + a prefix of that client's calls that contains all its durable ones) unless the whole state is a prefix of the calls before the phase.",
 				MinObs:      map[string]int64{"sessions_traced": 3, "distinct_images_recovered": 1000, "big_sessions": 1, "images_with_cut_wal_record": 2, "big_sessions_with_direct_io_wal": 1},
 				Assumptions: []string{"kill -9 model as in C02", "an operation that was invoked but not acknowledged may be the last element of the prefix"},
 			}
